@@ -65,12 +65,27 @@ def _sym_log(real_log):
     return f
 
 
+def _sym_fn(real_fn, uf, name):
+    def f(x, *a, **k):
+        from .pysym import SymReal, SymInt
+        if isinstance(x, (SymReal, SymInt)) and not a and not k:
+            t = z3.ToReal(x.t) if isinstance(x, SymInt) else x.t
+            r = uf(t)
+            if core.CTX is not None:
+                core.ctx().log.append(('trig', name, t, r) if name in ('sin', 'cos') else (name, t, r))
+            return SymReal(r)
+        return real_fn(x, *a, **k)
+    return f
+
+
 def proxies():
     import math as _math
     import numpy as _np
     from .pysym import SymReal
     pi = SymReal(PI)
-    return {'np': _Proxy(_np, {'pi': pi}), 'numpy': _Proxy(_np, {'pi': pi}),
+    npo = {'pi': pi, 'sin': _sym_fn(_np.sin, SIN, 'sin'), 'cos': _sym_fn(_np.cos, COS, 'cos'), 'exp': _sym_fn(_np.exp, EXP, 'exp'),
+           'sqrt': _sym_sqrt(_np.sqrt)}
+    return {'np': _Proxy(_np, npo), 'numpy': _Proxy(_np, npo),
             'math': _Proxy(_math, {'pi': pi, 'sqrt': _sym_sqrt(_math.sqrt), 'log': _sym_log(_math.log)})}
 
 
